@@ -674,6 +674,10 @@ func c15Case(c *core.Ctx, i int64, r *rand.Rand) {
 		reflect.Copy(cp, tv.Elem())
 		snap = cp.Interface()
 	}
+	if h := core.Hash(desc); h%64 == 11 {
+		EarlierCall(h >> 6) // a library call of another kind first (see common.go)
+		c.Count("binds_after_an_earlier_call_of_another_kind", 1)
+	}
 	var err error
 	pan, stack := protect(func() { err = bcl.Bind(target, bd) })
 	c.Eval(1)
